@@ -403,6 +403,20 @@ func (c *Ctx) ruleW0(rule string) {
 func (c *Ctx) boundsObligations(rule string, fn *ssa.Function) (int, int) {
 	lf := c.linFn(fn)
 	name := c.name(fn)
+	// receiver fields of a terminal's helper object: configuration (set by the constructor only)
+	configAtoms = map[string]bool{}
+	if fn.Signature.Recv() != nil && len(fn.Params) > 0 && !ssax.PtrNamedIs(fn.Signature.Recv().Type(), "text", "Reader") && !ssax.PtrNamedIs(fn.Signature.Recv().Type(), "text", "File") {
+		if n := namedOfType(fn.Signature.Recv().Type()); n != nil && !n.Obj().Exported() {
+			if st, ok := n.Underlying().(*types.Struct); ok {
+				written := c.fieldsWritten(fn)
+				for i := 0; i < st.NumFields(); i++ {
+					if !written[st.Field(i).Name()] {
+						configAtoms[fn.Params[0].Name()+"."+st.Field(i).Name()] = true
+					}
+				}
+			}
+		}
+	}
 	ok, bad := 0, 0
 	prove := func(in ssa.Instruction, what string, goals ...lin.Cons) {
 		var failed []string
@@ -490,12 +504,16 @@ func isConfigOnly(e lin.Expr) bool {
 		return false
 	}
 	for a := range e.Coef {
-		if !strings.HasPrefix(a, "^") {
+		if !strings.HasPrefix(a, "^") && !configAtoms[a] {
 			return false
 		}
 	}
 	return true
 }
+
+// configAtoms: atoms of the function under analysis that are fields of its receiver never written by parse-time
+// code (a helper object holding the constructor's arguments in place of captured variables).
+var configAtoms = map[string]bool{}
 
 func (c *Ctx) ruleR09a(rule string, fns []*ssa.Function, min int) {
 	c.R.Rule(rule, "every index and slice expression is proven 0 <= i < len / 0 <= lo <= hi <= len from dominating guards, File.len = len(File.data), loop induction and library contracts", min)
